@@ -127,6 +127,11 @@ impl<S: Scanner> System for IsoSys<S> {
         if self.storm && depth <= STORM_DEPTH + 2 {
             out.push(IAct::ResetStorm);
         }
+        if S::POLLS && depth <= crate::polling_pause_depth() {
+            for p in [(1u64 << 32) - 2, 1 << 32] {
+                out.push(IAct::Pause(p));
+            }
+        }
     }
     fn actions(&self, _s: &IsoState<S>, out: &mut Vec<IAct>) {
         for slot in 0..3u8 {
@@ -140,9 +145,7 @@ impl<S: Scanner> System for IsoSys<S> {
         }
         out.push(IAct::Reset);
         if S::POLLS {
-            for p in [(1u64 << 32) - 2, 1 << 32] {
-                out.push(IAct::Pause(p));
-            }
+
             out.push(IAct::Poll(0));
             out.push(IAct::Poll(1));
             out.push(IAct::Poll(2));
